@@ -119,6 +119,18 @@ TWINS = [
     ('adjoint-block', 'C13', 'base/transforms3d.py', '                [R, base.skew(t) @ R], \n                [Z, R]', '                [R, R @ base.skew(t)], \n                [Z, R]', 'R16', 'adjoint'),
     ('tr2delta-order', 'C13', 'base/transforms3d.py', '        Td = trinv(T0) @ T1', '        Td = T1 @ trinv(T0)', 'R16', 'tr2delta'),
     ('skewa-slot', 'C13', 'base/transformsNd.py', '        omega[:3, 3] = v[0:3]', '        omega[:3, 3] = v[3:6]', 'R16', 'skewa'),
+    ('adjoint2-repeated-test', 'C13', 'base/transforms2d.py', "def adjoint2(T):\n    # http://ethaneade.com/lie.pdf\n    if T.shape == (2,2):", "def adjoint2(T):\n    # http://ethaneade.com/lie.pdf\n    if T.shape == (3,3):", 'R7', 'adjoint2'),
+    ('adjoint2-column-sign', 'C13', 'base/transforms2d.py', '[R, np.c_[t[1], -t[0]].T], ', '[R, np.c_[-t[1], t[0]].T], ', 'R16', 'adjoint2'),
+    ('adjoint2-column-order', 'C13', 'base/transforms2d.py', '[R, np.c_[t[1], -t[0]].T], ', '[R, np.c_[t[0], -t[1]].T], ', 'R16', 'adjoint2'),
+    ('vvmul-cross-sign', 'C12', 'base/quaternions.py', 'return np.r_[qa[1] * qb[2] - qb[1] * qa[2] + qb[0] * t6', 'return np.r_[qb[1] * qa[2] - qa[1] * qb[2] + qb[0] * t6', 'R16', 'vvmul'),
+    ('vvmul-scalar-swapped', 'C12', 'base/quaternions.py', '    t6 = math.sqrt(1.0 - np.sum(qa**2))\n    t11 = math.sqrt(1.0 - np.sum(qb**2))', '    t6 = math.sqrt(1.0 - np.sum(qb**2))\n    t11 = math.sqrt(1.0 - np.sum(qa**2))', 'R16', 'vvmul'),
+    ('vec3-route', 'C12', 'quaternion.py', '        return base.q2v(self._A)', '        return self._A[1:4]', 'R15', 'vec3'),
+    ('qvmul-route-swapped', 'C12', 'quaternion.py', '        return base.vvmul(qv1, qv2)', '        return base.vvmul(qv2, qv1)', 'R15', 'qvmul'),
+    ('dot-route-body', 'C12', 'quaternion.py', '        return base.dot(self._A, omega)', '        return base.dotb(self._A, omega)', 'R15', 'UnitQuaternion.dot'),
+    ('dq-add-mixed-parts', 'C12', 'DualQuaternion.py', 'return DualQuaternion(left.real + right.real, left.dual + right.dual)', 'return DualQuaternion(left.real + right.real, left.dual + right.real)', 'R16', 'DualQuaternion.__add__'),
+    ('dq-sub-reversed', 'C12', 'DualQuaternion.py', 'return DualQuaternion(left.real - right.real, left.dual - right.dual)', 'return DualQuaternion(left.real - right.real, right.dual - left.dual)', 'R16', 'DualQuaternion.__sub__'),
+    ('accessor-a-short', 'C09', 'pose3d.py', '        return self.A[:3, 2]', '        return self.A[:2, 2]', 'R8', 'SO3.a'),
+    ('accessor-t-both-arms', 'C09', 'pose3d.py', '            return self.A[:3, 3]\n        else:\n            return np.array([x[:3, 3] for x in self.A])', '            return self.A[:3, 2]\n        else:\n            return np.array([x[:3, 2] for x in self.A])', 'R8', 'SE3.t'),
     ('cross-entry', 'C13', 'base/vectors.py', '        u[2] * v[0] - u[0] * v[2],', '        u[0] * v[2] - u[2] * v[0],', 'R16', 'cross'),
     ('tr2jac-notranspose', 'C13', 'base/transforms3d.py', '        return np.block([[R.T, Z], [Z, R.T]])', '        return np.block([[R, Z], [Z, R]])', 'R16', 'tr2jac'),
     # ---- C14
